@@ -26,7 +26,7 @@ def jobs(tier, seed):
     # header tables after edit sequences: the C06 harness ends with the same walker (shares its job results with C06)
     from props import c06
     for j in c06.jobs(tier, seed):
-        if j["args"][2] == 1 or tier == "thorough":
+        if (j["args"][2] == 1 and j["args"][1] != -1) or tier == "thorough":
             j["mod"] = "fmedit"
             J.append(j)
     return J
